@@ -29,6 +29,12 @@ FIRST_MISSED = {
     "C10-2": "no check reported it -> GBNHS-5 (reader re-armed before every wait)",
     "C11-2": "own property silent (reported by C17 with a misleading text) -> C11 FRESH; SIDDIR now accepts a struct copy",
     "C17-1": "own property silent (reported by C11 SIDFRESH) -> C17 shares SIDFRESH",
+    "C19-2": "no check reported it -> CODEC reject-set rule",
+    "C03-3": "no check reported it -> error discipline: no success return reachable between a call and the test of its error",
+    "C04-3": "own property silent (reported by C02/C03) -> C04 HSK-BIND 'failed tag aborts' for every DecryptAndHash of the reader",
+    "C05-3": "no check reported it -> RETRY (a failed relay stream is replaced before the retry)",
+    "C05-4": "no check reported it -> DUPLEX (read side and write side of the record layer share no state)",
+    "C06-3": "no check reported it -> RATELIMIT: once lastResend is refreshed the packets are transmitted",
 }
 
 
